@@ -113,6 +113,24 @@ def M_opt_unwrap_or_else(it, ctx, args, st):
             yield from it.call_closure(args[1], [], s2, ctx.fr)
 
 
+def M_opt_unwrap_or_default(it, ctx, args, st):
+    t = ctx.targs[0] if ctx.targs else None
+    name = ty_str(t) if t is not None else '?'
+    for s2, i, p in it.enum_cases(args[0], st):
+        if i == 1:
+            yield s2, p.fields[0]
+        elif name in ('&str', 'str'):
+            yield s2, s2.ref(bstr(b''))
+        elif name == 'std::string::String':
+            yield s2, bstr(b'')
+        elif name in INT_BITS:
+            yield s2, bv(0, INT_BITS[name])
+        elif name == 'bool':
+            yield s2, z3.BoolVal(False)
+        else:
+            raise Unsupported('unwrap_or_default for ' + name)
+
+
 def M_opt_map_or(it, ctx, args, st):
     for s2, i, p in it.enum_cases(args[0], st):
         if i == 0:
@@ -497,6 +515,8 @@ EXTRA_ITER_KINDS = {}
 def as_iter(it, st, v):
     if isinstance(v, Agg) and v.name == 'It':
         return v
+    if isinstance(v, Agg) and v.name.endswith('iter::Empty'):
+        return It('list', ())
     if isinstance(v, Enum) and v.decl.name == 'Option':
         # Option as IntoIterator: 0/1 items; only concrete discriminants supported here
         d = concrete(v.discr)
@@ -557,7 +577,7 @@ def M_into_iter(it, ctx, args, st):
 
 def is_model_iter(st, v):
     v = st.deref_all(v) if isinstance(v, Ptr) else v
-    return isinstance(v, Agg) and v.name == 'It'
+    return isinstance(v, Agg) and (v.name == 'It' or v.name.endswith('iter::Empty'))
 
 
 def is_seq_ptr(st, v):
@@ -1185,7 +1205,7 @@ ITER = r'<.* as ' + P + r'iter::Iterator>::'
 MODELS = [
     (OPT + r'map::<.*>', M_opt_map), (OPT + r'and_then::<.*>', M_opt_and_then), (OPT + r'or_else::<.*>', M_opt_or_else),
     (OPT + r'filter::<.*>', M_opt_filter), (OPT + r'ok_or_else::<.*>', M_opt_ok_or_else), (OPT + r'ok_or::<.*>', M_opt_ok_or),
-    (OPT + r'unwrap_or', M_opt_unwrap_or), (OPT + r'unwrap_or_else::<.*>', M_opt_unwrap_or_else), (OPT + r'map_or::<.*>', M_opt_map_or),
+    (OPT + r'unwrap_or', M_opt_unwrap_or), (OPT + r'unwrap_or_default', M_opt_unwrap_or_default), (OPT + r'unwrap_or_else::<.*>', M_opt_unwrap_or_else), (OPT + r'map_or::<.*>', M_opt_map_or),
     (OPT + r'(unwrap|expect)', M_opt_unwrap), (RES + r'(unwrap|expect)', M_opt_unwrap),
     (OPT + r'is_some', M_opt_is_some), (OPT + r'is_none', M_opt_is_none), (OPT + r'as_ref', M_opt_as_ref),
     (OPT + r'(cloned|copied)', M_opt_cloned), (OPT + r'take', M_opt_take), (OPT + r'transpose', M_opt_transpose),
